@@ -90,6 +90,36 @@ _mk("QIF", NN, "QIF", neuron_ctor(dict(rest_v=-60.0, crit_v=-55.0, affinity=0.3,
 _mk("EIF", NN, "EIF", neuron_ctor(dict(rest_v=-60.0, rheobase_v=-52.0, sharpness=2.0, reset_v=-62.0, thresh_v=-40.0, refrac_t=2.0, time_constant=10.0)), neuron_drive)
 
 
+def adaptive_drive(c, n):
+    """training-mode step (adaptation learned), an eval-mode step, clear keeping and dropping adaptations: the learned
+    adaptation must be state that a checkpoint carries"""
+    c.call(c.getattr(n, "forward"), c.pw("I", eshape=S13), adapt=True)
+    c.call(c.getattr(n, "forward"), c.pw("I2", eshape=S13), adapt=False)
+    c.call(c.getattr(n, "clear"))
+    c.call(c.getattr(n, "clear"), keep_adaptations=False)
+
+
+def adaptive_ctor(kw, state_attr):
+    def ctor(c, cv):
+        def reduce_(itp, x, dim=0, **k2):  # the documented batch reduction, applied to one arbitrary sample
+            es = tz.Shape(x.eshape.items[1:]) if x.eshape is not None and len(x.eshape.items) > 1 else x.eshape
+            return T(x.f, x.dtype, x.tlen, x.taxis, es, x.nan)
+
+        n = c.call(cv, (3,), 1.0, batch_reduction=Model(reduce_, "batch_reduction"), **kw)
+        # the learned adaptation as an arbitrary tensor with its trailing adaptation axis (2 components)
+        n.fields[state_attr] = c.seq("A", 2, "float", "last", tz.Shape((3,)))
+        return n
+
+    return ctor
+
+
+_ADK = dict(rest_v=-60.0, refrac_t=2.0, tc_membrane=10.0)
+_mk("ALIF", NL, "ALIF", adaptive_ctor(dict(_ADK, reset_v=-65.0, thresh_eq_v=-50.0, tc_adaptation=(30.0, 90.0), spike_increment=(1.0, -0.5)), "threshold_adaptation_"), adaptive_drive)
+_mk("GLIF2", NL, "GLIF2", adaptive_ctor(dict(_ADK, reset_v_add=-2.0, reset_v_mul=0.2, thresh_eq_v=-50.0, rc_adaptation=(0.03, 0.01), spike_increment=(1.5, 0.5)), "threshold_adaptation_"), adaptive_drive)
+_mk("Izhikevich", NN, "Izhikevich", adaptive_ctor(dict(_ADK, crit_v=-55.0, affinity=0.3, reset_v=-62.0, thresh_v=-40.0, tc_adaptation=(50.0, 20.0), voltage_coupling=(0.5, 0.1), spike_increment=(2.0, 1.0)), "current_adaptation_"), adaptive_drive)
+_mk("AdEx", NN, "AdEx", adaptive_ctor(dict(_ADK, rheobase_v=-52.0, sharpness=2.0, reset_v=-62.0, thresh_v=-40.0, tc_adaptation=(50.0, 20.0), voltage_coupling=(0.5, 0.1), spike_increment=(2.0, 1.0)), "current_adaptation_"), adaptive_drive)
+
+
 def syn_ctor(kw):
     def ctor(c, cv):
         return c.call(cv, (3,), 1.0, delay=c.real("delay_ge0") if False else 2.0, **kw)
